@@ -409,7 +409,8 @@ pub fn run_check(ctx: &Ctx) -> i32 {
         ambiguity_sweep(ctx);
     } else {
         sweep(ctx, "F<=3 x 6 handler sets x L0,L1,LB x every handler index x flags", Space::Frags { k, max: 3 }, &sets, l1, MemSweep::None);
-        sweep(ctx, "F<=2 x 6 handler sets x L0,L1,L2,LB,LE x every handler index x every memory limit x flags", Space::Frags { k, max: 2 }, &sets, Levels { l1: true, l2_max_len: 40, bytewise: true, empties: true }, MemSweep::Every);
+        sweep(ctx, "F<=2 x 6 handler sets x L0,L1,L2,LB,LE x every handler index x flags", Space::Frags { k, max: 2 }, &sets, Levels { l1: true, l2_max_len: 40, bytewise: true, empties: true }, MemSweep::None);
+        sweep(ctx, "F<=2 x 6 handler sets x L0,L1,LB x every handler index x EVERY memory limit 0..M0 x flags", Space::Frags { k, max: 2 }, &sets, l1, MemSweep::Every);
         sweep(ctx, "Fcore<=3 x 6 handler sets x L0,L1,LB x handler index + every memory limit", Space::Frags { k: F_CORE, max: 3 }, &sets, l1, MemSweep::Windows);
         sweep(ctx, "18 contexts x F<=2 x 6 handler sets x L0,L1,LB x handler index + memory limit", Space::CtxFrags { k, max: 2 }, &sets, l1, MemSweep::Windows);
         ambiguity_sweep(ctx);
